@@ -37,6 +37,7 @@ from .constants import DIAMETER_AGENT_CLIENT_MODE
 from .constants import DIAMETER_AGENT_SERVER_MODE
 from .constants import DIAMETER_AGENT_TRANSPORT_TYPE_TCP
 from .constants import DIAMETER_AGENT_TRANSPORT_TYPE_SCTP
+from .constants import DIAMETER_HEADER_LENGTH
 from .exceptions import AVPParsingError
 from .exceptions import DiameterApplicationError
 from .exceptions import DiameterAssociationError
@@ -162,7 +163,36 @@ class DiameterAssociation(object):
         self.transport = None
 
 
+    @staticmethod
+    def _split_complete_messages(data_stream: bytes) -> tuple:
+        """Splits a byte stream into the Diameter Messages it holds 
+        completely and the remaining bytes, which belong to a message still
+        on its way. The transport may deliver a message in several pieces.
+        """
+        streams = list()
+        index = 0
+
+        while len(data_stream) - index >= DIAMETER_HEADER_LENGTH:
+            length = int.from_bytes(data_stream[index+1:index+4], 
+                                    byteorder="big")
+
+            if length < DIAMETER_HEADER_LENGTH:
+                #: Not a Diameter Message at all: let the parser reject it.
+                streams.append(data_stream[index:])
+                return streams, b""
+
+            if index + length > len(data_stream):
+                break
+
+            streams.append(data_stream[index:index+length])
+            index += length
+
+        return streams, data_stream[index:]
+
+
     def recv_message_from_queue(self) -> None:
+        pending_stream = b""
+
         while not self._stop_threads and self.transport:
             self.transport._recv_data_available.wait(timeout=1)
 
@@ -171,25 +201,28 @@ class DiameterAssociation(object):
             if self.transport is None:
                 break
 
-            data_stream = copy.copy(self.transport._recv_data_stream)
+            data_stream = pending_stream + self.transport._recv_data_stream
             self.transport._recv_data_stream = b""
             self.transport._recv_data_available.clear()
 
             diameter_conn_logger.debug("Grabbing data stream from "\
                                        "Transport Layer to Diameter Layer.")
 
-            try:
-                msgs = DiameterMessage.load(data_stream)
-                for msg in msgs:
-                    make_logging(msg, disable_else=True)
-                    self._recv_messages.put(msg)
+            streams, pending_stream = self._split_complete_messages(data_stream)
+
+            for stream in streams:
+                try:
+                    msgs = DiameterMessage.load(stream)
+                    for msg in msgs:
+                        make_logging(msg, disable_else=True)
+                        self._recv_messages.put(msg)
                 
-                diameter_conn_logger.debug(f"Found {len(msgs)} Diameter "\
-                                           f"Message(s).")
-            except AVPParsingError:
-                diameter_conn_logger.exception(f"AVPParsingError has "\
-                                               f"been raised due stream: "\
-                                               f"{self.transport._recv_data_stream.hex()}")
+                    diameter_conn_logger.debug(f"Found {len(msgs)} Diameter "\
+                                               f"Message(s).")
+                except AVPParsingError:
+                    diameter_conn_logger.exception(f"AVPParsingError has "\
+                                                   f"been raised due stream: "\
+                                                   f"{stream.hex()}")
 
             self.lock.release()
 
